@@ -529,6 +529,45 @@ func (bridge *ExprBridge) PreprocessLikeExpression(expression string) (string, e
 
 // PreprocessIsNullExpression 预处理IS NULL和IS NOT NULL表达式，转换为expr-lang可理解的表达式
 func (bridge *ExprBridge) PreprocessIsNullExpression(expression string) (string, error) {
+	// Text inside a string literal is data ('%value IS NULL%'): only the parts
+	// outside quotes are rewritten.
+	if strings.ContainsAny(expression, "'\"") {
+		var b strings.Builder
+		i := 0
+		for i < len(expression) {
+			j := i
+			for j < len(expression) && expression[j] != '\'' && expression[j] != '"' {
+				j++
+			}
+			part, err := bridge.preprocessIsNullUnquoted(expression[i:j])
+			if err != nil {
+				return expression, err
+			}
+			b.WriteString(part)
+			if j >= len(expression) {
+				break
+			}
+			q := expression[j]
+			k := j + 1
+			for k < len(expression) && expression[k] != q {
+				if expression[k] == '\\' && k+1 < len(expression) {
+					k++
+				}
+				k++
+			}
+			if k < len(expression) {
+				k++
+			}
+			b.WriteString(expression[j:k])
+			i = k
+		}
+		return b.String(), nil
+	}
+	return bridge.preprocessIsNullUnquoted(expression)
+}
+
+// preprocessIsNullUnquoted rewrites IS [NOT] NULL in text that holds no string literal.
+func (bridge *ExprBridge) preprocessIsNullUnquoted(expression string) (string, error) {
 	// 匹配复杂表达式的 IS NOT NULL 模式 (如函数调用)
 	complexNotNullPattern := `([A-Za-z_][A-Za-z0-9_]*\s*\([^)]*\))\s+(?i:IS\s+NOT\s+NULL)`
 	reComplexNotNull, err := regexp.Compile(complexNotNullPattern)
